@@ -290,6 +290,49 @@ def run(ck):
                                     what='[%s] %s: length(%r, %r) = %r, Gauss-Legendre quadrature of the speed gives %r' % (cfg, nm_, t0, t1, got, ref),
                                     case={'arc': nm_, 't0': t0, 't1': t1, 'cfg': cfg}, expected=ref, observed=repr(got), driver='arc')
                         break
+            # the same curves in other units / elsewhere (length is homogeneous of degree 1 and translation invariant), and sub-interval requests on an object
+            # whose whole length has been asked before (nothing remembered may enter a later answer at lower accuracy)
+            base_shapes = [('quad arch', lambda f: sp.QuadraticBezier(f(0j), f(1 + 1j), f(2 + 0j))), ('cubic', lambda f: sp.CubicBezier(f(0j), f(1 + 2j), f(3 - 1j), f(4 + 1j))),
+                           ('cusp cubic', lambda f: sp.CubicBezier(f(0j), f(1 + 1j), f(0 + 1j), f(1 + 0j))), ('ellipse arc', lambda f: sp.Arc(f(0j), (f(3 + 1.5j) - f(0j)), 25, False, True, f(4 + 1j))),
+                           ('quad steep', lambda f: sp.QuadraticBezier(f(0j), f(0.5 + 6j), f(1 + 0j)))]
+            placements = [(1e-7, 0j), (1e-4, 0j), (1e-2, 0j), (1e4, 0j)] + ([(1.0, 1e6 + 2e6j), (1.0, -3e7 + 1e7j), (30.0, 5e5 + 4.6e6j)] if True else [])
+            for nm_, mk_ in base_shapes:
+                ref_seg = mk_(lambda z: z)
+                if isinstance(ref_seg, sp.Arc):
+                    ref_len = {iv: ref_seg.length(*iv) for iv in ((0, 1), (0.2, 0.7))}
+                else:
+                    ref_len = {iv: sum(bracket(ref_seg.cropped(*iv) if iv != (0, 1) else ref_seg, 9)) / 2 for iv in ((0, 1), (0.2, 0.7))}
+                for k_, off_ in placements:
+                    if cfg != 'scipy' and ((isinstance(ref_seg, sp.Arc) and k_ > 1) or k_ < 1e-5):
+                        continue        # (without scipy the documented *absolute* error 1e-12 of the fallback is 2e-6 of a curve of size 1e-7: by the API's own definition, not claimed)        # (the recursive fallback with its absolute error 1e-12 needs minutes on a large arc)
+                    sg_ = mk_(lambda z: off_ + k_ * z)
+                    for iv in ((0, 1), (0.2, 0.7)):
+                        ck.case(fp=('placed', nm_, k_, str(off_), iv, cfg), nontrivial=True)
+                        try:
+                            got = sg_.length(*iv)
+                        except Exception as e:      # noqa
+                            got = e
+                        tol_ = (5e-3 if 'cusp' in nm_ else 1e-6) * ref_len[iv] * k_ + 4e-14 * abs(off_)
+                        if isinstance(got, Exception) or not (abs(got - k_ * ref_len[iv]) <= tol_):
+                            ck.disagree(key='%s.length/depends-on-unit-or-position' % type(sg_).__name__, site='svgpathtools/path.py:length / segment_length',
+                                        what='[%s] %s at scale %g, offset %r: length%r = %r, the curve at scale 1 has %r' % (cfg, nm_, k_, off_, iv, got, ref_len[iv]),
+                                        case={'shape': nm_, 'scale': k_, 'off': str(off_), 'cfg': cfg}, expected=k_ * ref_len[iv], observed=repr(got), driver='placement')
+                            break
+                # whole first, then tails / heads: equal to a new object's answers
+                for iv in ((0.999, 1), (0.9, 1), (0, 0.001), (0.5, 1), (0.4999, 0.5001)):
+                    warm_, fresh_ = mk_(lambda z: z), mk_(lambda z: z)
+                    ck.case(fp=('whole-then-part', nm_, iv, cfg), nontrivial=True)
+                    try:
+                        warm_.length()
+                        sp.Path(warm_).length()
+                        a_, b_ = warm_.length(*iv), fresh_.length(*iv)
+                        c_ = sp.Path(warm_, sp.Line(warm_.end, warm_.end + 1)).length(0, 0.25)
+                    except Exception as e:      # noqa
+                        a_, b_ = e, None
+                    if isinstance(a_, Exception) or not (abs(a_ - b_) <= 1e-9 + 1e-6 * abs(b_)):
+                        ck.disagree(key='%s.length/part-after-whole' % type(warm_).__name__, site='svgpathtools/path.py:length', what='[%s] %s: length() then length%r = %r, a new object answers %r' % (cfg, nm_, iv, a_, b_),
+                                    case={'shape': nm_, 'iv': iv, 'cfg': cfg}, expected=repr(b_), observed=repr(a_), driver='history')
+                        break
     finally:
         sppath._quad_available = old
     ck.sample('collinear', cases[0])
